@@ -191,7 +191,10 @@ def annotate(x, depth=0):
         j = []
         if depth < 12:
             try:
-                j = [annotate(json.loads(x), depth + 1)]
+                decoded = json.loads(x)
+                # the pre-pass of generic casting replaces text by the JSON value it encodes -- except when that value is text again
+                # (a JSON string literal: fix F29, it was peeled once more at every re-validation of the dumped model)
+                j = [] if isinstance(decoded, str) else [annotate(decoded, depth + 1)]
             except Exception:
                 j = []
         return [4, x, j, scalar_ann(x)]
